@@ -312,15 +312,18 @@ class Tensor:
     return self.shape[0]
 
   def __len__(self):
-    n = sym.concrete_int(self.shape[0]) if self.shape else None
+    n = sym.concretize(self.shape[0]) if self.shape else None
     if n is None:
       raise Unsupported("len() of tensor with symbolic leading dim reached CPython")
     return n
 
   def __iter__(self):
-    n = sym.concrete_int(self.shape[0]) if self.shape else None
+    n = sym.concretize(self.shape[0]) if self.shape else None
     if n is None:
       raise Unsupported("iteration over tensor with symbolic leading dim")
+    if len(self.shape) == 1:
+      # numpy yields scalars when iterating a 1-D array
+      return iter([self.at((i,)) for i in range(n)])
     return iter([self[i] for i in range(n)])
 
   def __hash__(self):
@@ -486,7 +489,8 @@ class Tensor:
 
   def __setitem__(self, idx, v):
     # numpy-style in-place store (np arrays in BlockPartitioner)
-    new = setitem(self, idx, v)
+    old = Tensor(self.shape, self.dtype, self._fn, dict(self.tags))
+    new = setitem(old, idx, v)
     self._fn = new._fn
     self._cache = {}
     self.shape = new.shape
@@ -769,6 +773,8 @@ def getitem(t, idx):
         cn = sym.concrete_int(n)
         if cn is not None:
           n = max(cn, 0)
+        elif sym.prove(n >= 0):
+          n = SInt(z3.simplify(n.z))
         else:
           n = sym.smax(n, 0)
           s = z3.simplify(n.z)
@@ -1014,13 +1020,19 @@ def reshape(t, shape):
       else:
         shape[neg[0]] = _prod(rest)
   shape = tuple(shape)
+  # dims that the path condition forces to 1 are treated as unit dims
+  t = _unit_view(t)
+  shape_u = tuple(1 if _provably_one(d) else d for d in shape)
+  if any(a is not b for a, b in zip(shape_u, shape)):
+    inner = reshape(t, shape_u)
+    return Tensor(shape, inner.dtype, inner._fn, dict(inner.tags))
   # size obligation
-  same = len(shape) == len(t.shape) and all(_dim_eq(a, b) is True for a, b in zip(shape, t.shape))
+  same = len(shape) == len(t.shape) and all(_dim_same(a, b) for a, b in zip(shape, t.shape))
   if same:
     return Tensor(shape, t.dtype, t._fn, dict(t.tags))
   src_nz = [(i, d) for i, d in enumerate(t.shape) if not _is_one(d)]
   dst_nz = [(i, d) for i, d in enumerate(shape) if not _is_one(d)]
-  if len(src_nz) == len(dst_nz) and all(_dim_eq(a[1], b[1]) is True for a, b in zip(src_nz, dst_nz)):
+  if len(src_nz) == len(dst_nz) and all(_dim_same(a[1], b[1]) for a, b in zip(src_nz, dst_nz)):
     # only unit axes inserted / removed
     def fn(idx):
       src = [0] * t.ndim
@@ -1044,19 +1056,63 @@ def reshape(t, shape):
     return _reshape_grouped(t, shape, groups)
 
   def fn(idx):
-    flat = 0
+    flat = None
     for i, d in zip(idx, shape):
-      flat = flat * d + i
+      flat = i if flat is None else flat * d + i
+    if flat is None:
+      flat = 0
+    if not t.shape:
+      return t.at(())
     src = []
     rem = flat
     for d in reversed(t.shape[1:]):
-      src.append(rem % d)
-      rem = rem // d
+      src.append(_mod_known(rem, d))
+      rem = _div_known(rem, d)
     src.append(rem)
     return t.at(tuple(reversed(src)))
 
   cur().axioms_used.add("reshape preserves the row-major flat view")
   return Tensor(shape, t.dtype, fn, dict(t.tags))
+
+
+def _radix_bound(flat, idxs, dims):
+  """Lemma (Lean Spec.radix_bound): 0<=i_k<d_k for all k  =>  0 <= flat < prod d_k."""
+  if not isinstance(flat, sym.Sym):
+    return
+  c = cur()
+  key = ("radix", flat.z.get_id())
+  if key in c.ghost:
+    return
+  c.ghost[key] = True
+  pre = sym.sand(*[sym.sand(i >= 0, i < d) for i, d in zip(idxs, dims)])
+  c.fact(sym.implies(pre, sym.sand(flat >= 0, flat < _prod(dims))),
+         "Lean Spec.radix_bound: mixed-radix index is below the product of the radices")
+
+
+def _provably_one(d):
+  if not isinstance(d, sym.Sym):
+    return d == 1
+  if sym.concrete_int(d) is not None:
+    return sym.concrete_int(d) == 1
+  return cur().solver.check(d.z != 1) == z3.unsat
+
+
+def _unit_view(t):
+  shp = tuple(1 if (isinstance(d, sym.Sym) and sym.concrete_int(d) is None and _provably_one(d)) else d
+              for d in t.shape)
+  if all(a is b for a, b in zip(shp, t.shape)):
+    return t
+  return Tensor(shp, t.dtype, t._fn, dict(t.tags))
+
+
+def _dim_same(a, b):
+  r = _dim_eq(a, b)
+  if r is not None:
+    return r
+  az, bz = sym._as_int_z(a), sym._as_int_z(b)
+  if z3.simplify(az - bz).eq(z3.IntVal(0)):
+    return True
+  return sym.prove(SBool(az == bz))
 
 
 def _reshape_groups(src, dst):
@@ -1075,7 +1131,7 @@ def _reshape_groups(src, dst):
       continue
     if i >= len(src) or j >= len(dst):
       return None
-    if _dim_eq(src[i], dst[j]) is True:
+    if _dim_same(src[i], dst[j]):
       groups.append(([i], [j]))
       i += 1
       j += 1
@@ -1129,9 +1185,10 @@ def _reshape_grouped(t, shape, groups):
       if len(sa) == 1 and len(da) == 1:
         src[sa[0]] = idx[da[0]]
       elif len(sa) == 1 and len(da) > 1:
-        flat = 0
+        flat = None
         for a in da:
-          flat = flat * shape[a] + idx[a]
+          flat = idx[a] if flat is None else flat * shape[a] + idx[a]
+        _radix_bound(flat, [idx[a] for a in da], [shape[a] for a in da])
         src[sa[0]] = flat
       elif len(da) == 1 and len(sa) > 1:
         rem = idx[da[0]]
@@ -1146,18 +1203,44 @@ def _reshape_grouped(t, shape, groups):
   return Tensor(tuple(shape), t.dtype, fn, dict(t.tags))
 
 
+def _divmod_known(a, d):
+  """(a div d, a mod d) for d > 0.  If a is syntactically x*d + y and the path
+  condition proves 0 <= y < d the answer is (x, y) exactly (mixed-radix rewrite,
+  side condition checked by the solver); otherwise fresh quotient/remainder."""
+  if not (isinstance(a, sym.Sym) or isinstance(d, sym.Sym)):
+    return a // d, a % d
+  az, dz = sym._as_int_z(a), sym._as_int_z(d)
+  c = cur()
+  key = ("divmod", az.get_id(), dz.get_id())
+  if key in c.ghost:
+    return c.ghost[key]
+  res = None
+  sp = _split_affine(az, dz)
+  if sp is not None:
+    x, y = sp
+    s = c.solver
+    if s.check(z3.Not(z3.And(y >= 0, y < dz))) == z3.unsat:
+      res = (SInt(x), SInt(y))
+  if res is None:
+    s = c.solver
+    if s.check(z3.Not(z3.And(az >= 0, az < dz))) == z3.unsat:
+      res = (0, a)
+  if res is None:
+    q, r = sym.floordiv_int(az, dz, check=False)
+    res = (SInt(q), SInt(r))
+  c.ghost[key] = res
+  return res
+
+
+_split_affine = sym.split_affine
+
+
 def _div_known(a, d):
-  if isinstance(a, sym.Sym) or isinstance(d, sym.Sym):
-    az, dz = sym._as_int_z(a), sym._as_int_z(d)
-    return SInt(sym.floordiv_int(az, dz, check=False)[0])
-  return a // d
+  return _divmod_known(a, d)[0]
 
 
 def _mod_known(a, d):
-  if isinstance(a, sym.Sym) or isinstance(d, sym.Sym):
-    az, dz = sym._as_int_z(a), sym._as_int_z(d)
-    return SInt(sym.floordiv_int(az, dz, check=False)[1])
-  return a % d
+  return _divmod_known(a, d)[1]
 
 
 def concatenate(ts, axis=0):
